@@ -908,6 +908,7 @@ func (s *Server) RemoteHello(
 	// memorize
 	s.lastPushData.mTime = export.Time
 	s.lastPushData.queueTick = export.QueueTick
+	s.lastPushData.machTick = export.MachineTick
 	s.lastPushData.mTrackedTimeSum = tTrackedSum
 	s.lastPush = time.Now()
 	s.clientId.Store(&req.Id)
